@@ -163,7 +163,9 @@ RoundTripO1(x) == \A r \in Draws : ChkX(InfO1(x, r), x, <<>>, r)      \* same dr
 NoExc(x)     == InfOn(x).k # "exc" /\ \A r \in Draws : InfO1(x, r).k # "exc"
 
 Inv_RoundTripOn == Active => RoundTripOn(X)
-Inv_RoundTripO1 == Active => RoundTripO1(X)
+\* O1 inference describes ONE sampled item per level (documented trade-off): it is only required to agree with
+\* the full inference where the object is homogeneous at every level (no union in the On hint)
+Inv_O1Homogeneous == (Active /\ ~HasNode(InfOn(X), "union")) => \A r \in Draws : InfO1(X, r) = InfOn(X)
 Inv_SatOn       == Active => SatX(InfOn(X), X, <<>>)
 Inv_NoException == Active => NoExc(X)
 Inv_Terminates  == Active => LET hs == {InfOn(X)} \cup { InfO1(X, r) : r \in Draws } IN
@@ -192,14 +194,18 @@ Lemma_Conservative ==
 RECURSIVE HasClsIn(_, _, _)
 HasClsIn(x, cs, nonempty) == (x.k # "back" /\ x.cls \in cs /\ (~nonempty \/ Len(x.items) > 0))
                              \/ \E i \in DOMAIN SubObjs(x) : HasClsIn(SubObjs(x)[i], cs, nonempty)
+RECURSIVE HasCounterNonInt(_)
+HasCounterNonInt(x) == (x.k = "map" /\ x.cls = "Counter" /\ \E i \in DOMAIN x.items : x.items[i].val.cls \notin {"int", "bool"})
+                       \/ \E i \in DOMAIN SubObjs(x) : HasCounterNonInt(SubObjs(x)[i])
 CauseSet(x) ==
      (IF HasClsIn(x, {"dict_items", "odict_items", "USetNe"}, FALSE) THEN {"set_node"} ELSE {})
 \cup (IF HasClsIn(x, {"odict_keys", "odict_values"}, TRUE) THEN {"unsubscriptable"} ELSE {})
 \cup (IF HasClsIn(x, {"E"}, FALSE) THEN {"meta_dunder"} ELSE {})
 \cup (IF HasBack(x) THEN {"marker"} ELSE {})
 \cup (IF HasClsIn(x, {"DSeq", "DMap"}, FALSE) THEN {"duck"} ELSE {})
+\cup (IF HasCounterNonInt(x) THEN {"counter_val"} ELSE {})
 \* faithful design: every predicted failure falls into one of the five classes ...
-F_Clean == (Active /\ CauseSet(X) = {}) => RoundTripOn(X) /\ RoundTripO1(X) /\ NoExc(X) /\ SatX(InfOn(X), X, <<>>)
+F_Clean == (Active /\ CauseSet(X) = {}) => RoundTripOn(X) /\ NoExc(X) /\ SatX(InfOn(X), X, <<>>)
 \* ... and each class is exhibited (expected VIOLATED in the faithful design: non-vacuity)
 NV(c) == (Active /\ CauseSet(X) = {c}) => RoundTripOn(X) /\ NoExc(X)
 NV_set_node        == NV("set_node")
@@ -207,10 +213,15 @@ NV_unsubscriptable == NV("unsubscriptable")
 NV_meta_dunder     == NV("meta_dunder")
 NV_marker          == NV("marker")
 NV_duck            == NV("duck")
+NV_counter_val     == NV("counter_val")
 \* the draw-dependence of F10: some self-referential container is accepted under one residue, rejected under another
 NV_draw_dependent  == (Active /\ HasBack(X)) =>
                          LET h == InfOn(X) IN (\A r \in Draws : ChkX(h, X, <<>>, r)) \/ (\A r \in Draws : ~ChkX(h, X, <<>>, r))
 
+T_X == Active => X.k # "zzz"
+T_X5 == Active => \A i \in 1..50 : X.k # "zzz"
+T_Inst == Active => \A i \in 1..50 : InstX(X, "Sequence") \/ TRUE
+T_Fsm == Active => \A i \in 1..50 : FsmRun(MethodsOf("UMSeq")) = "MutableSequence"
 (* -------------------------------------------------------------- rows (R2) *)
 Bit(b, w) == IF b THEN w ELSE 0
 RECURSIVE MaskOn(_, _, _), MaskO1(_, _)
